@@ -4,6 +4,7 @@ package main
 // R-C04-STORE (engine E), R-C04-NONDET, R-C04-NOSET (reflect.Set*/unsafe count 0).
 
 import (
+	"go/token"
 	"go/types"
 	"strings"
 
@@ -27,6 +28,7 @@ func checkC04(p *Prog, r *Report) {
 	ruleNoReflectSet(p, r, "R-C04-NOSET")
 	rulePoolDiscipline(p, a, r, "R-C04-POOL")
 	ruleC04Nondet(p, a, r)
+	ruleC04Close(p, a, r)
 }
 
 func entrySet(a *Anchors) map[*ssa.Function]bool {
@@ -66,6 +68,9 @@ func ruleC04Store(p *Prog, a *Anchors, r *Report, rule string, onlyTypes map[str
 		case a.PerExecTypes[e.Target.Type] || e.Target.Type == "Context":
 			if g := globalRoot(nf); g != "" {
 				r.Bad(key, pos, "%s: the %s written here can be the object kept in package-level variable %s (shared by all executions): what one execution writes into it, every later one sees; origin %s (judged in %s)", e.Desc, e.Target.Type, g, rootsString(nf), where)
+			} else if fr := foreignRoot(nf); fr != "" && token.IsExported(e.Target.Type) {
+				// (an unexported type cannot be constructed by registered code: such an object is the engine's own)
+				r.Bad(key, pos, "%s: the %s written here can be an object that registered code handed out (%s): a filter, tag or macro may return one and the same value every time (a sentinel *Error), so what one execution writes into it the next one — and a concurrent one — sees; origin %s (judged in %s)", e.Desc, e.Target.Type, fr, rootsString(nf), where)
 			} else {
 				r.OK(key, pos, "%s: per-execution type %s", e.Desc, e.Target.Type)
 			}
@@ -94,6 +99,17 @@ func ruleC04Store(p *Prog, a *Anchors, r *Report, rule string, onlyTypes map[str
 	r.Extra["exec_reachable_functions"] = len(p.inPkgFuncsSorted(reach))
 	r.Extra["compiled_tree_types"] = sortedKeys(a.CompiledTypes)
 	r.Extra["per_execution_types"] = sortedKeys(a.PerExecTypes)
+}
+
+// foreignRoot: an origin that is the result of a call through a function value (registered filter / tag parser /
+// macro): the engine does not own what such a call returns.
+func foreignRoot(rs []Root) string {
+	for _, r := range rs {
+		if r.Kind == RUnknown && strings.HasPrefix(r.Name, "dynamic call") {
+			return r.Name
+		}
+	}
+	return ""
 }
 
 // globalRoot: name of a package-level variable among the origins, or "".
